@@ -207,8 +207,15 @@ def run(ck, F):
         bad = []
         for abb, at in appends:
             d_ = M.Body.callee_decl(at) or ""
-            guarded = d_.endswith("push") and any((lambda arm: arm is not None and MB.dominates(arm, abb))(_arm_when_false(MB, tbb, tt)) for tbb, tt in tests
-                                                  if (M.Body.callee_decl(tt) or "").endswith(("::contains", "Iterator::any")))
+            def absent_arm(tbb, tt):
+                """the block reached when the membership test says "not in the registry yet" """
+                dd = M.Body.callee_decl(tt) or ""
+                if dd.endswith(("::contains", "Iterator::any")):
+                    return _arm_when_false(MB, tbb, tt)
+                if dd.endswith("Iterator::all") and _closure_compares_unequal(F, MB, tt["args"][1]):
+                    return _arm_when_false(MB, tbb, tt, want_true=True)     # all(|x| x != item)
+                return None
+            guarded = d_.endswith("push") and any((lambda arm: arm is not None and MB.dominates(arm, abb))(absent_arm(tbb, tt)) for tbb, tt in tests)
             if not guarded:
                 bad.append((abb, d_.rsplit("::", 1)[-1]))
         if bad:
@@ -226,10 +233,29 @@ def run(ck, F):
                      "abbreviated differently in two files yields two prefixes/modules, and two URIs abbreviated alike in two files share one")
 
 
-def _arm_when_false(B, abb, at):
-    """Block reached when the bool result of call `at` is false (through an optional `Not`)."""
+def _closure_compares_unequal(F, B, operand):
+    """the closure does nothing but compare with `!=` (one Ne / `ne`, no other operation)"""
+    for o in M.trace(B, operand, ()):
+        if not (o.kind == "aggregate" and o.rv.get("closure")):
+            return False
+        cb = F.lib.body(o.rv["closure"])
+        if cb is None or not cb.get("mir"):
+            return False
+        CB = M.Body(cb)
+        ops = [st["rv"] for i in sorted(CB.reach) for st in CB.blocks[i]["stmts"] if st["k"] == "assign" and st["rv"]["k"] in ("binop", "unop")]
+        calls = [M.Body.callee_decl(t) or "" for _, t in CB.calls()]
+        ne_ops = [x for x in ops if x["k"] == "binop" and x["op"] == "Ne"]
+        ne_calls = [c for c in calls if c.endswith("cmp::PartialEq::ne")]
+        others = [x for x in ops if x not in ne_ops] + [c for c in calls if c not in ne_calls and not c.endswith(("ops::Deref::deref",))]
+        if len(ne_ops) + len(ne_calls) != 1 or others:
+            return False
+    return True
+
+
+def _arm_when_false(B, abb, at, want_true=False):
+    """Block reached when the bool result of call `at` is false (through an optional `Not`); with want_true, when it is true."""
     dest = at["dest"]["l"]
-    neg = False
+    neg = bool(want_true)
     cur = dest
     for _ in range(8):
         uses = [u for u in M.uses_of_local(B, cur) if u[1] != "drop"]
